@@ -11,6 +11,8 @@ use std::rc::Rc;
 use vcommon::gen;
 use vcommon::obs::{catch, measure, Guarded};
 use vcommon::val::*;
+#[allow(unused_imports)]
+use vcommon::val::HINTS;
 
 pub const ENC_ENTRIES: [&str; 7] = ["to_slice", "to_vec", "to_allocvec", "to_stdvec", "to_extend", "to_io", "to_eio"];
 pub const DEC_ENTRIES: [&str; 5] = ["take_from_bytes", "from_bytes", "from_io", "from_eio", "deserializer"];
@@ -106,6 +108,8 @@ pub fn decode(entry: usize, s: &Shape, input: &[u8], side: u8, extra: &mut J) ->
     let (base, blen) = if entry == 2 || entry == 3 { (sbase, slen) } else { (buf.as_ptr(), n) };
     extra["leaves"] = leaves_json(base, blen);
     extra["transient"] = json!(TRANSIENT.with(|t| t.get()));
+    extra["hints"] = hints_json();
+    extra["avail"] = json!(if entry == 2 || entry == 3 { slen } else { n });
     extra["alloc_peak"] = json!(st.peak);
     extra["alloc_max"] = json!(st.max_request);
     res_json(r)
@@ -244,6 +248,9 @@ impl serde::Serialize for DeclaredLen {
 struct Pieces<'a> {
     pieces: &'a [String],
     fail_at: i64,
+    /// how piece i reaches the writer: 0 = write_str, 1 = char by char through Formatter::write_char,
+    /// 2 = through `{}` of each char (char's own Display), 3 = `{:>w$}` padding (fill characters are written singly)
+    modes: &'a [u8],
 }
 impl std::fmt::Display for Pieces<'_> {
     fn fmt(&self, f: &mut std::fmt::Formatter<'_>) -> std::fmt::Result {
@@ -251,7 +258,19 @@ impl std::fmt::Display for Pieces<'_> {
             if i as i64 == self.fail_at {
                 return Err(std::fmt::Error);
             }
-            f.write_str(p)?;
+            match self.modes.get(i).copied().unwrap_or(0) {
+                1 => {
+                    for c in p.chars() {
+                        std::fmt::Write::write_char(f, c)?;
+                    }
+                }
+                2 => {
+                    for c in p.chars() {
+                        write!(f, "{}", c)?;
+                    }
+                }
+                _ => f.write_str(p)?,
+            }
         }
         if self.fail_at == self.pieces.len() as i64 {
             return Err(std::fmt::Error);
@@ -312,13 +331,14 @@ fn c02_extras(r: &mut StdRng, out: &mut Out, n: usize) {
             .collect();
         let fail_at: i64 = if i % 5 == 4 { r.gen_range(0..=np as i64) } else { -1 };
         let follow: u8 = r.gen();
-        let c = Collect(Pieces { pieces: &pieces, fail_at }, follow);
+        let modes: Vec<u8> = (0..np).map(|_| r.gen_range(0..3)).collect();
+        let c = Collect(Pieces { pieces: &pieces, fail_at, modes: &modes }, follow);
         let res = match catch(|| postcard::to_allocvec(&c)) {
             Ok(Ok(b)) => json!({"ok":1,"bytes":jb(&b)}),
             Ok(Err(e)) => json!({"ok":0,"err":errname(&e)}),
             Err(p) => json!({"ok":0,"err":"panic","at":p}),
         };
-        out.ev(json!({"op":"cstr","pieces":pieces.iter().map(|p| jb(p.as_bytes())).collect::<Vec<_>>(),"fail_at":fail_at,"follow":follow,"res":res}));
+        out.ev(json!({"op":"cstr","pieces":pieces.iter().map(|p| jb(p.as_bytes())).collect::<Vec<_>>(),"fail_at":fail_at,"follow":follow,"modes":modes,"res":res}));
     }
 }
 
@@ -412,6 +432,8 @@ pub fn run(a: &Args) {
             ev["leaves"] = extra["leaves"].take();
             ev["transient"] = extra["transient"].take();
             ev["alloc_peak"] = extra["alloc_peak"].take();
+            ev["hints"] = extra["hints"].take();
+            ev["avail"] = extra["avail"].take();
             out.ev(ev);
         }
     }
